@@ -68,8 +68,33 @@ def coq_sources():
     return out
 
 
-def ensure_built():
-    """Full (incremental) .vo build of the Coq development.  Returns (ok, log)."""
+def coq_targets_for(mod, prop_id):
+    """props/<id>.vo plus every model/proofs file named in the harness module and the harness modules it imports."""
+    import types
+    seen, todo, names = set(), [mod], set()
+    while todo:
+        m = todo.pop()
+        if m.__name__ in seen:
+            continue
+        seen.add(m.__name__)
+        try:
+            src = open(m.__file__).read()
+        except Exception:
+            continue
+        names.update(re.findall(r"\b(model|proofs)\.([A-Z][A-Za-z0-9_]*)", src))
+        for v in vars(m).values():
+            if isinstance(v, types.ModuleType) and v.__name__.startswith("harness.") and v.__name__ != "harness.core":
+                todo.append(v)
+    out = [os.path.join("props", prop_id + ".vo")]
+    for d, n in sorted(names):
+        if os.path.exists(os.path.join(COQ, d, n + ".v")):
+            out.append(os.path.join(d, n + ".vo"))
+    return out
+
+
+def ensure_built(targets=None):
+    """Full .vo build (incremental) of what this check needs: the given targets and everything they depend on
+    (all targets when none are given).  Returns (ok, log)."""
     with Lock(os.path.join(COQ, ".lock")):
         srcs = coq_sources()
         proj = open(os.path.join(COQ, "_CoqProject")).read()
@@ -82,7 +107,7 @@ def ensure_built():
             rc, log = sh(["coq_makefile", "-f", "_CoqProject", "-o", "Makefile"], cwd=COQ)
             if rc != 0:
                 return False, log
-        rc, log = sh(["timeout", "1500", "make", "-j16", "-k"], cwd=COQ, timeout=1600)
+        rc, log = sh(["timeout", "1500", "make", "-j16", "-k"] + list(targets or []), cwd=COQ, timeout=1600)
         return rc == 0, log
 
 
